@@ -100,7 +100,7 @@ def SubR.newLineHard (s : SubR) : Except Err SubR :=
   | some w => if w.wordlen = 0 && w.linelen = 0 then s.addEmptyLine else s.flushWrapping
 
 def strikeFilter (s : List Ch) : List Ch :=
-  s.flatMap fun c => if (if c.ctrl then 0 else c.w) > 0 then [c, ⟨0x336, 0, false, false⟩] else [c]
+  s.flatMap fun c => if !c.ws && (if c.ctrl then 0 else c.w) > 0 then [c, ⟨0x336, 0, false, false⟩] else [c]
 
 def iterN {α : Type} (f : α → α) : Nat → α → α
   | 0, a => a
